@@ -114,6 +114,15 @@ SPECS = [
          ],
          raises={'*': {'ensures': ["raised('h1') or (ext_count() == 2 and ext_raised(1))"]}},
          serves=['C09'], no_fresh=True),
+    dict(id='S-UseExternal-filler-define',
+         # a slot filler with its own local definition: the filler is compiled into a function of its
+         # own that runs with the scope the MACRO hands it; saving / restoring the outer binding of the
+         # name goes through that scope (static check scope_helpers_local on the emitted functions)
+         text='A<u metal:use-macro="e1"><f metal:fill-slot="s" tal:define="len e2">%s ${len}</f></u>B' % H1,
+         own_names=['macroname', '__slot_s'],
+         ensures=["evals(1) == 1", "ext_count() == 1", "holes_here(1) == 0", "evals(2) == 0"],
+         raises={'*': {'ensures': ["raised('e1') or ext_raised(0)"]}},
+         serves=['C09', 'C05'], no_fresh=True),
 ]
 
 CONTRACTS = schema_contracts(SPECS)
